@@ -1,8 +1,7 @@
-\* generation (thorough): every finished behaviour (interleaving of <= 4 WriteMsg calls over the 8 size classes with the ReadMsg
-\* calls, every ending); one line per behaviour
+\* generation (thorough, next to Gen_FrameStream.cfg): every finished behaviour with <= 4 WriteMsg calls over 6 of the size classes
 SPECIFICATION Spec
 CONSTANTS
-  Classes <- C8
+  Classes <- C6
   Empty = "z"
   Over = "over"
   Subs = {1}
